@@ -1216,33 +1216,59 @@ KNOWN_SIG_EIGH = "wrong-gradient:eigh-repeated-eigenvalue:HKY-uniform-frequencie
 
 
 def probe_eigh_degenerate(ck, rng):
-    """HKY at uniform frequencies (repeated eigenvalue of the matrix handed to eigh): autograd's gradient in the
-    frequencies against the finite difference.  A disagreement is the finding proposed in fixes/KNOWN-C12.txt: it is
-    reported through ck.violation (-> KNOWN-FINDING) once the signature is listed in KNOWN_FINDINGS.txt, and
-    recorded in the evidence (`proposed_known_findings`) until then."""
-    import c12_scen
+    """DETERMINISTIC probe of the listed known finding: HKY(kappa = 2) at exactly uniform frequencies, ONE entry of
+    the transition matrix (P[A,G] at t = 0.3), fixed direction (1, -0.5, 0.7, -0.9) in the frequencies: autograd
+    against the Ridders finite difference of the same entry.  On the pinned tree autograd gives 0.6015, the finite
+    difference 0.2529.  A disagreement is reported under the signature listed in KNOWN_FINDINGS.txt (KNOWN-FINDING);
+    if the signature is not listed it is only recorded in the evidence (`proposed_known_findings`)."""
+    import torch
+    from torchtree.core.parameter import Parameter
+    from torchtree.evolution.substitution_model import HKY
+
+    dvec = [1.0, -0.5, 0.7, -0.9]
+
+    def entry(fr):
+        m = HKY(None, Parameter(None, torch.tensor([2.0], dtype=torch.float64)), Parameter(None, fr))
+        return m.p_t(torch.tensor([[0.3]], dtype=torch.float64))[0, 0, 0, 2]
 
     try:
-        scen = c12_scen.scenario(c12_scen.gen_eigh_degenerate(rng))
-        v0, g, b0 = eval_grad(scen, scen.x)
-        dvec = [1.0, -0.5, 0.7, -0.9]
-        fd = fd_directional(scen, scen.x, {"freqs": dvec}, None, 0.01, 5)
-        gd = sum(a * c for a, c in zip(g["freqs"], dvec))
+        fr = torch.tensor([0.25, 0.25, 0.25, 0.25], dtype=torch.float64, requires_grad=True)
+        (g,) = torch.autograd.grad(entry(fr), fr)
+        gd = float(sum(a * c for a, c in zip(g.tolist(), dvec)))
+        d = torch.tensor(dvec, dtype=torch.float64)
+        with torch.no_grad():
+            fd, err, _hmin, _fmax = ridders(lambda t: float(entry(torch.tensor([0.25] * 4, dtype=torch.float64) + t * d)),
+                                            0.02, ntab=6)
     except Exception as e:
-        ck.notes.append(f"eigh-degenerate probe not evaluated: {type(e).__name__}")
+        ck.notes.append(f"eigh-degenerate probe not evaluated: {type(e).__name__}: {str(e)[:120]}")
         return
     ck.case(key=("probe", "eigh-degenerate"), bucket="probe/eigh-repeated-eigenvalue",
-            sample={"scenario": scen.name, "autograd": gd, "finite_difference": fd["d"]})
-    if abs(gd - fd["d"]) <= tolerance(gd, fd):
+            sample={"scenario": "HKY(kappa=2, uniform frequencies).p_t(0.3)[A,G]", "direction": dvec, "autograd": gd,
+                    "finite_difference": fd, "fd_error_estimate": err})
+    tol = REL * max(abs(gd), abs(fd)) + 10 * err + 1e-9
+    if math.isfinite(gd) and abs(gd - fd) <= tol:
         ck.extra["eigh_degenerate_probe"] = "autograd agrees with the finite difference"
         return
-    what = (f"{scen.name}: d/dfreqs[dir] autograd={gd:.8g} but finite difference of the returned value = "
-            f"{fd['d']:.8g} (torch.linalg.eigh backward at a repeated eigenvalue)")
+    what = (f"HKY(kappa=2) at uniform frequencies, P[A,G](t=0.3): d/dfreqs{dvec} autograd={gd:.8g} but finite difference "
+            f"of the same entry = {fd:.8g} (+-{err:.2g}) (torch.linalg.eigh backward at a repeated eigenvalue)")
+    ck.extra["eigh_degenerate_probe"] = what
     if any(ks == KNOWN_SIG_EIGH for ks, _ in ck.known):
-        ck.violation(KNOWN_SIG_EIGH, what, {"finding": {"kind": "wrong-gradient", "scenario": scen.name, "spec": scen.spec,
-                                                         "leaf": "freqs", "direction": dvec, "label": "dir", "h0": 0.01}})
+        ck.violation(KNOWN_SIG_EIGH, what, {"finding": {"kind": "eigh-probe"}})
     else:
         ck.extra["proposed_known_findings"] = [{"sig": KNOWN_SIG_EIGH, "what": what, "file": "fixes/KNOWN-C12.txt"}]
+
+
+def _on_repeated_eigenvalue(bad):
+    """a catalogue point that sits exactly on the listed tie: equal base frequencies under a model that goes
+    through eigh (generators avoid it; should one land there it is the KNOWN finding, not a new one)"""
+    spec = bad.get("spec") or {}
+    if spec.get("family") not in ("like", "joint") or bad.get("kind") not in ("wrong-gradient", "non-finite-gradient"):
+        return False
+    x = spec.get("x", {})
+    fr = x.get("freqs")
+    z = x.get("zfreqs")
+    uniform = (fr is not None and max(fr) - min(fr) < 1e-12) or (z is not None and all(abs(v) < 1e-12 for v in z))
+    return uniform and bad.get("leaf") in ("freqs", "zfreqs", "kappa", "rates6", "gr")
 
 
 def _finish(ck, out, fam_seen, ok, broken, st_ok):
@@ -1257,6 +1283,8 @@ def _finish(ck, out, fam_seen, ok, broken, st_ok):
         if len(reported) >= 8:
             break
         sig = "%s:%s:%s" % (bad["kind"], "/".join(bad["scenario"].split("/")[:2]), bad.get("leaf", "-"))
+        if _on_repeated_eigenvalue(bad):
+            sig = KNOWN_SIG_EIGH
         if sig in reported:
             continue
         reported.add(sig)
@@ -1322,6 +1350,15 @@ def replay(path: str) -> int:
     if not bad:
         print("replay names broken obligations only:", obj.get("broken_obligations"), obj.get("mismatches"))
         return 1
+    if bad["kind"] == "eigh-probe":
+        ck = Check("C12", "quick", 0)
+        ck.known = []
+        probe_eigh_degenerate(ck, random.Random(0))
+        msg = ck.extra.get("eigh_degenerate_probe", "")
+        print(msg)
+        bad_ = not msg.startswith("autograd agrees")
+        print("VIOLATES" if bad_ else "ok")
+        return 1 if bad_ else 0
     if bad["kind"] == "model-tangent-differs":
         import c12_corr
 
